@@ -378,54 +378,53 @@ func c03Width(p *Prog, rp *Report) {
 		rp.Errorf("386 load: %v", err)
 		return
 	}
-	var parser *ssa.Function
-	for _, f := range p386.SrcFuncs("version") {
-		sig := f.Signature
-		if sig.Params().Len() == 2 && errResultIndex(sig) == 0 && isStringT(sig.Params().At(1).Type()) {
-			if _, ok := sig.Params().At(0).Type().(*types.Pointer); ok {
-				parser = f
-			}
-		}
-	}
-	if parser == nil {
-		r.undecided("version.parse-function(386)", "", "parse function not found in the 386 load")
+	parse := p386.Func("version", "Parse")
+	vt := p386.Named("version", "Version")
+	if parse == nil || vt == nil {
+		r.undecided("version.Parse(386)", "", "version.Parse not found in the 386 load")
 		return
 	}
-	vt := p386.Named("version", "Version")
-	fi := fieldIndex(structOf(vt), "Epoch")
-	sizes := types.SizesFor("gc", "386")
-	fieldBits := sizes.Sizeof(structOf(vt).Field(fi).Type()) * 8
-	found := false
-	for _, c := range allCalls(parser) {
-		n := calleeName(c.Common())
-		if n != "strconv.ParseInt" && n != "strconv.ParseUint" && n != "strconv.Atoi" {
-			continue
+	wordBits = 32
+	defer func() { wordBits = 64 }()
+	var problems []string
+	rows := 0
+	for _, ep := range []uint64{0, 1, 65536, 2147483647, 2147483648, 4294967295, 4294967296, 4294967297, 8589934593, 1 << 40, 9223372036854775807} {
+		text := fmt.Sprintf("%d:1.0-1", ep)
+		m := NewMachine(p386, nil)
+		installStringModels(m)
+		installFuncModels(m)
+		installUnicodeModels(m)
+		m.Hooks["fmt.Sprintf"] = sprintfModel
+		st := initState(m, "version")
+		st.push(parse, []Val{text}, nil)
+		out := m.Run(st)
+		rows++
+		if len(out) != 1 || out[0].Status != stRet {
+			problems = append(problems, "undecided: "+retDesc(out))
+			break
 		}
-		found = true
-		bits := int64(32) // Atoi: int
-		if n != "strconv.Atoi" {
-			b, ok := constInt(c.Common().Args[2])
-			if !ok {
-				r.undecided("version.epoch-parse(386)", p386.Pos(c.Pos()), "bit size is not a constant")
-				return
+		tv, ok := st.Ret.(*TupleV)
+		if !ok || len(tv.E) != 2 {
+			problems = append(problems, "undecided: unexpected result shape")
+			break
+		}
+		if _, isNil := tv.E[1].(nilV); !isNil {
+			if ep <= 2147483647 {
+				problems = append(problems, fmt.Sprintf("on a 32 bit platform %q is rejected although the epoch fits", text))
 			}
-			bits = b
-			if bits == 0 {
-				bits = 32
-			}
+			continue // rejecting an epoch that does not fit is fine
 		}
-		// signed parse of `bits` bits yields < 2^(bits-1); unsigned field of fieldBits holds < 2^fieldBits
-		limit := bits
-		if n != "strconv.ParseUint" {
-			limit = bits - 1
+		sv, ok := tv.E[0].(*StructV)
+		if !ok {
+			problems = append(problems, "undecided: Parse does not return a Version")
+			break
 		}
-		r.check(limit <= fieldBits, "version.epoch-parse(386)", p386.Pos(c.Pos()),
-			fmt.Sprintf("%s with %d bits fits the %d bit Epoch field", n, bits, fieldBits),
-			fmt.Sprintf("%s accepts %d bit values but Epoch has %d bits on 386: an oversized epoch is truncated instead of rejected", n, bits, fieldBits))
+		got, _ := sv.F[fieldIndex(structOf(vt), "Epoch")].(int64)
+		if uint64(got) != ep {
+			problems = append(problems, fmt.Sprintf("on a 32 bit platform %q is accepted with epoch %d: the epoch is truncated instead of rejected", text, uint64(got)))
+		}
 	}
-	if !found {
-		r.undecided("version.epoch-parse(386)", p386.Pos(parser.Pos()), "no integer parse found")
-	}
+	fillProblems(r, "version.Parse(386)", p386.Pos(parse.Pos()), problems, fmt.Sprintf("%d epochs around 2^31 and 2^32 interpreted on the GOARCH=386 load with 32 bit int/uint: accepted only with the exact value", rows))
 }
 
 // versionFamily: strings built from every combination of epoch part, upstream
